@@ -154,9 +154,9 @@ INFO = {
         "rulefn": _field_rule,
         "trusted": ["irreducibility of the generated f is guaranteed by the harness (irreducible modulo a small prime / known family), not re-checked by the oracle (which requires f primitive, squarefree, degree >= 1)",
                     "closed-form field discriminants (quadratic, pure cubic, cyclotomic, biquadratic) computed in the harness"],
-        "gaps": ["termination of the Round 2 loop (and of the discriminant factorisation by trial division) is not proved: the theorems are about runs that return; invariance of the discriminant under a change of generator follows from maximality mathematically but is stated per field only through the per-case checks (theta+k, -theta, c*theta, 1/theta)"],
+        "gaps": ["termination of the Round 2 loop (and of the discriminant factorisation by trial division) is not proved: the theorems are about runs that return"],
         "assumptions": ["f irreducible (squarefree) of degree >= 1"],
-        "level_text": "Full theorems about the Lean model of integral_basis/mod.rs and round2.rs (Pohst-Zassenhaus Round 2), for every canonical f of degree >= 1 (monic or not) and runs that return: the starting order Z[theta] meet Z[1/theta] is a ring; every Round 2 step computes exactly the multiplier ring of the p-radical (semantics of mul_mod_p, pow_mod_p, the Frobenius kernel I_p, the U_p loop), returns a ring containing its argument with index p^howmany, and howmany = 0 only for a p-maximal order; the result O of find_integral_basis is a full-rank module that contains 1 and the starting order, is CLOSED UNDER MULTIPLICATION, is P-MAXIMAL AT EVERY PRIME, and NO STRICTLY LARGER ORDER EXISTS (every multiplicatively closed lattice containing O equals O); disc(start) = index^2 * disc(O), the discriminant of every order is an integer, and these are the two numbers the CLI prints. Model tied to the code by differential testing (whole routine and each Round 2 step through a feature-guarded wrapper); every output also decided by independent maximality oracles; CLI cases.",
+        "level_text": "Full theorems about the Lean model of integral_basis/mod.rs and round2.rs (Pohst-Zassenhaus Round 2), for every canonical f of degree >= 1 (monic or not) and runs that return: the starting order Z[theta] meet Z[1/theta] is a ring; every Round 2 step computes exactly the multiplier ring of the p-radical (semantics of mul_mod_p, pow_mod_p, the Frobenius kernel I_p, the U_p loop), returns a ring containing its argument with index p^howmany, and howmany = 0 only for a p-maximal order; the result O of find_integral_basis is a full-rank module that contains 1 and the starting order, is CLOSED UNDER MULTIPLICATION, is P-MAXIMAL AT EVERY PRIME, and NO STRICTLY LARGER ORDER EXISTS (every multiplicatively closed lattice containing O equals O); disc(start) = index^2 * disc(O); for irreducible f the Z-span of O is exactly the integral closure of Z in Q[x]/(f), disc(O) is Mathlib's NumberField.discr of that field, and it is the same for every polynomial defining an isomorphic field (theta+k, -theta, c*theta, 1/theta as instances); the discriminant of every order is an integer, and these are the two numbers the CLI prints. Model tied to the code by differential testing (whole routine and each Round 2 step through a feature-guarded wrapper); every output also decided by independent maximality oracles; CLI cases.",
         "level_note": "Trusted: Lean kernel + 3 standard axioms; Mathlib (commutative algebra, AdjoinRoot, discriminants); correspondence coverage.",
     },
     "C16": {
@@ -164,9 +164,9 @@ INFO = {
         "rulefn": _field_rule,
         "trusted": ["maximality of the order is not re-verified here (C06); the oracle checks that B is a ring basis with first vector 1 containing Z[theta] and that its structure constants are T",
                     "Ideal has no accessor for its HNF: the harness reads it from the derived Debug output and re-validates each extraction with HNF::new(rows) == rows"],
-        "gaps": ["I * I^-1 = (d) for the inverse routine is not a theorem (certified on every explored case by Spec.Ideal: exact lattice computations, spec-side products); norm multiplicativity holds for Dedekind tables — proved unconditionally for the table of the order computed by find_integral_basis with irreducible f (norm_multiplicative_maximal_order), and shown false for non-maximal orders (Z[sqrt(-3)])"],
+        "gaps": ["every clause is a theorem; the clauses that are false for non-maximal orders (norm multiplicativity, I * I^-1 = (d)) are proved for Dedekind tables and, unconditionally, for the table of the order computed by find_integral_basis with irreducible f, with kernel-checked counterexamples in Z[sqrt(-3)] showing the hypothesis is needed"],
         "assumptions": ["ideals of a maximal order given by HNF bases relative to an integral basis whose first vector is 1"],
-        "level_text": "Theorems about the Lean model of ideal.rs and get_inv_diff for every multiplication table of the right shape (ring axioms of the table where stated, as the decidable predicate TableRing): sum = smallest lattice containing both; product = lattice spanned by all pairwise products (never an error); product commutative, associative, distributive over sum as equalities of the returned HNFs; principal ideals, sums, products of O-ideals are O-ideals; `contains` <=> membership; cap_z = positive generator of I meet Z; norm = lattice index = |O/I| = Mathlib's Ideal.absNorm of the corresponding ideal of the ring built from the table; norm of a principal ideal = |norm of the generator| (generator of non-zero norm); norm multiplicative for Dedekind tables, and for the table of every order returned by find_integral_basis with irreducible f (such a table is a domain, integrally closed and Dedekind: proved from C06's maximality theorem); inverse different: get_inv_diff returns (d, H) exactly when the trace matrix is non-singular, with d^n = norm(H) * |disc| where disc = det(trace matrix) = the order's discriminant (any f, any order basis), and H = d * (dual lattice under the trace form). Model tied to the code by differential testing; each output decided by an independent oracle.",
+        "level_text": "Theorems about the Lean model of ideal.rs and get_inv_diff for every multiplication table of the right shape (ring axioms of the table where stated, as the decidable predicate TableRing): sum = smallest lattice containing both; product = lattice spanned by all pairwise products (never an error); product commutative, associative, distributive over sum as equalities of the returned HNFs; principal ideals, sums, products of O-ideals are O-ideals; `contains` <=> membership; cap_z = positive generator of I meet Z; norm = lattice index = |O/I| = Mathlib's Ideal.absNorm of the corresponding ideal of the ring built from the table; norm of a principal ideal = |norm of the generator| (generator of non-zero norm); norm multiplicative for Dedekind tables, and for the table of every order returned by find_integral_basis with irreducible f (such a table is a domain, integrally closed and Dedekind: proved from C06's maximality theorem); inverse different: get_inv_diff returns (d, H) exactly when the trace matrix is non-singular, with d^n = norm(H) * |disc| where disc = det(trace matrix) = the order's discriminant (any f, any order basis), and H = d * (dual lattice under the trace form). the inverse routine never panics on a full-rank ideal with non-degenerate trace form, returns (a, N) with a = cap_z(I), N/a the colon ideal (O : I) (dual-lattice description via the trace form), and I * N = (a) for Dedekind tables and for the computed maximal order. Model tied to the code by differential testing; each output decided by an independent oracle.",
         "level_note": "Trusted: Lean kernel + 3 standard axioms; correspondence coverage. Partial: ring-theoretic clauses are certified per explored case, not proved.",
     },
     "C17": {
@@ -246,7 +246,7 @@ INFO = {
         "trusted": ["hooked RNG (feature verif-hooks), its Lean decoder (NTV.Draw) and the feature-guarded wrappers ecm::verif / ecm_parallel::verif",
                     "reference primality for the oracle: trial division below 2^32, 12-base deterministic Miller-Rabin below 2^64, above that only the primes the harness built n from (Mersenne primes)",
                     "select_b(n) for n > 1000 (floating point) is read from the implementation and handed to the model; (b1 as f64).sqrt() is modelled as the integer square root (exact below 2^52)"],
-        "gaps": ["termination of the curve loop is probabilistic (false for a constant stream): the theorems are about runs that return; every explored run terminated", "primality of the returned p rests on Miller-Rabin (C13): a history in which 20 bases are all strong liars makes the drivers return a composite 'prime' (probability <= 4^-20 per call by the proved Rabin-Monier bound; recorded open finding); uniqueness is a theorem under 'every acceptance along the run was correct'; on every explored case each returned p is re-checked by the reference primality test", "release profile: multiplicities are u64 and wrap silently, so the product theorem needs x < 2^(2^64) (kernel-checked counterexample at x = 2^(2^64), physically unreachable); select_b's float branch and the f64 square root are not modelled"],
+        "gaps": ["termination of the curve loop is probabilistic (false for a constant stream): the theorems are about runs that return; every explored run terminated", "primality of the returned p rests on Miller-Rabin (C13): a history in which 20 bases are all strong liars makes the drivers return a composite 'prime' (probability <= 4^-20 per call by the proved Rabin-Monier bound; recorded open finding); uniqueness is a theorem under 'every acceptance along the run was correct'; on every explored case each returned p is re-checked by the reference primality test", "release profile: multiplicities are u64 and wrap silently, so the product theorem needs x < 2^(2^64) (kernel-checked counterexample at x = 2^(2^64), physically unreachable); select_b's float branch and the f64 square root are not modelled", "the batched driver now chooses its bound per work item (fix D15); select_b above 1000 is floating-point code and is not modelled: its values for the divisors of n are supplied by the harness in a table, and a run that needs a missing entry is dropped as inconclusive"],
         "assumptions": ["n >= 1 (n <= 0 is the documented panic, checked by the correspondence)"],
         "level_text": "Theorems about the Lean model of ecm.rs / ecm_parallel.rs / factorize.rs for every input, every sequence of random draws and both build profiles: any Err(d) of the point arithmetic, of ecm_oneshot and of its batched version divides n; ecm and ecm_parallel::ecm only return proper divisors; the work-stack drivers preserve the product (if they return, the product of the returned prime powers is x); dev profile: the stage-2 start exponents and ecm_oneshot never overflow for B1+1, B2+6 < 2^64; trial division is fully correct. Model tied to the code by replaying the captured random history of every run (dev and release builds); every implementation answer is re-checked by an independent oracle (strictly increasing, reference-prime, positive exponents, product n).",
         "level_note": "Trusted: Lean kernel + 3 standard axioms; RNG hook + decoder; harness-supplied select_b for n > 1000. Partial: termination and primality of the returned factors are not theorems (probabilistic).",
@@ -285,9 +285,9 @@ INFO = {
         "rulefn": _c13_rule,
         "trusted": ["hooked RNG (feature verif-hooks) and the Lean decoding of num-bigint 0.4.4's gen_biguint_below (checked by the correspondence itself: 20 decoded bases per run)",
                     "reference classification: trial division below 2^32, 12-base deterministic Miller-Rabin below 2^64 (Sorenson-Webster), construction hints above (Mersenne primes, products)"],
-        "gaps": ["no probability measure over byte streams is formalised: 'probability at most 4^-20' is the counting statement (at most ((n-1)/4)^20 of the (n-1)^20 base vectors are accepted) together with two theorems: the verdict on a stream is the verdict on the 20 decoded bases, and every base in [1,n-1] is decoded from the same number of chunks (the decoder is balanced); the step from 'independent uniform chunks with rejection' to 'independent uniform bases' is informal"],
+        "gaps": ["the measure-theoretic statement is about independent uniform bases (PMF.uniformOfFinset on the 20-fold product, shown equal to the product of the marginals); that the byte-stream decoder with rejection turns independent uniform chunks into such bases is proved only as 'every base has the same number of chunk preimages', not as a statement about a measure on streams"],
         "assumptions": [],
-        "level_text": "Theorems about the Lean model of prime.rs, the random history being an explicit argument: n <= 1 and even n > 2 rejected; every prime accepted on every stream (one-sided error); one round = the textbook strong-probable-prime condition; the Rabin-Monier bound in full: for EVERY odd composite n at most (n-1)/4 of the bases in [1, n-1] pass a round (tight at n = 9), hence at most ((n-1)/4)^20 of the (n-1)^20 vectors of 20 bases are accepted, i.e. error at most 4^-20 under independent uniform bases, for every composite n; the verdict of is_prime on a stream equals the verdict on the 20 bases decoded from it, the decoded bases lie in [1, n-1], and each base has the same number of chunk preimages (uniformity of gen_bigint_range as modelled). Model tied to prime.rs by replaying the captured RNG chunks of every run; implementation answers checked against deterministic references.",
+        "level_text": "Theorems about the Lean model of prime.rs, the random history being an explicit argument: n <= 1 and even n > 2 rejected; every prime accepted on every stream (one-sided error); one round = the textbook strong-probable-prime condition; the Rabin-Monier bound in full: for EVERY odd composite n at most (n-1)/4 of the bases in [1, n-1] pass a round (tight at n = 9), hence at most ((n-1)/4)^20 of the (n-1)^20 vectors of 20 bases are accepted, i.e. error at most 4^-20 under independent uniform bases, for every composite n, also as a statement about Mathlib's uniform PMF on base vectors: P(accept) <= (1/4)^20; the verdict of is_prime on a stream equals the verdict on the 20 bases decoded from it, the decoded bases lie in [1, n-1], and each base has the same number of chunk preimages (uniformity of gen_bigint_range as modelled). Model tied to prime.rs by replaying the captured RNG chunks of every run; implementation answers checked against deterministic references.",
         "level_note": "Trusted: Lean kernel + 3 standard axioms; Mathlib ZMod/group theory; RNG hook + decoder (checked by the correspondence: 20 decoded bases per run); correspondence generator coverage.",
     },
     "C02": {
